@@ -234,7 +234,7 @@ class Check:
         return 0
 
 
-class LibraryTimeout(Exception):
+class LibraryTimeout(BaseException):
     pass
 
 
